@@ -98,6 +98,30 @@ def search(ctx, scales_mod, np):
                     chk("increasing", v > prev[1], dict(scale=name, params=params, f1=prev[0], f2=f, s1=float(prev[1]), s2=float(v)))
                 prev = (f, v)
                 ctx.count("search:" + name)
+    # documented public attributes (low_hz, slope_hz) re-assigned on a USED object: both directions must follow the
+    # current values (an object used, re-tuned, used again behaves like a fresh one built with the new values)
+    for rep in range(ctx.scale(10, 60)):
+        kind = r.choice(["linear", "octave"])
+        if kind == "linear":
+            s = scales_mod.LinearScaling(r.choice([0.0, 10.0, 123.5]), r.choice([1.0, 0.5, 2.0]))
+            new = dict(low_hz=r.choice([5.0, 40.0, 0.0]), slope_hz=r.choice([3.25, 1.0, 0.25]))
+        else:
+            s = scales_mod.OctaveScaling(r.choice([20.0, 1.0, 55.5]))
+            new = dict(low_hz=r.choice([10.0, 27.5, 440.0]))
+        old_params = {k: getattr(s, k) for k in new}
+        f0 = r.uniform(500.0, 5000.0)
+        s.scale_to_hertz(s.hertz_to_scale(f0))  # use it once
+        for k, v in new.items():
+            setattr(s, k, v)
+        fresh = scales_mod.LinearScaling(**new) if kind == "linear" else scales_mod.OctaveScaling(**new)
+        for f in [new["low_hz"] + 1e-3, f0, r.uniform(new["low_hz"] + 1, 2e4)]:
+            v, vf = s.hertz_to_scale(f), fresh.hertz_to_scale(f)
+            back = s.scale_to_hertz(v)
+            det = dict(scale=kind, history="constructed with %r, used, then re-assigned %r" % (old_params, new), hertz=f,
+                       scale_value=float(v), fresh_scale_value=float(vf), back=float(back))
+            chk("reassigned_roundtrip_hz", abs(back - f) <= tol * max(1.0, abs(f)), det)
+            chk("reassigned_like_fresh", abs(v - vf) <= tol * max(1.0, abs(vf)), det)
+            ctx.count("search:reassigned-" + kind)
     # low_hz maps to scale 0 for linear and octave
     for lowv, slope in ((10.0, 2.0), (5.0, 0.5), (0.0, 3.0)):
         s = scales_mod.LinearScaling(lowv, slope)
